@@ -176,6 +176,20 @@ def PSeg.letter : PSeg → Char
 def redundantL (shape : List Char) (pts : List Point) : Bool :=
   decide (shape.length > 3 ∧ shape.drop (shape.length - 2) = ['l', 'h'] ∧ pts[pts.length - 2]? = pts.head?)
 
+/-- The classification at the end of paint_path on the string of operator letters `shape`. -/
+def classifyShape (a : PaintArgs) (shape : List Char) (pts : List Point) (tpath : List PSeg) : List Shape :=
+  if shape = ['m', 'l', 'h'] ∨ shape = ['m', 'l'] then
+    match pts with
+    | p0 :: p1 :: _ => [mkLine a p0 p1 tpath]
+    | _ => []                                   -- unreachable: two letters, two points
+  else if shape = ['m', 'l', 'l', 'l', 'h'] ∨ shape = ['m', 'l', 'l', 'l', 'l'] then
+    match pts with
+    | [p0, p1, p2, p3, p4] =>
+      if p0 = p4 ∧ squareCoords p0 p1 p2 p3 = true then [mkRect a (p0.1, p0.2, p2.1, p2.2) tpath]
+      else [mkCurve a pts tpath]
+    | _ => []                                   -- unreachable: five letters, five points
+  else [mkCurve a pts tpath]
+
 /-- The `else` branch of paint_path: a path with exactly one `m`, at its head.
 `shape` is the string of operator letters, exactly as in the Python code. -/
 def paintSingle (ctm : Matrix) (a : PaintArgs) (path : List PSeg) : List Shape :=
@@ -189,17 +203,7 @@ def paintSingle (ctm : Matrix) (a : PaintArgs) (path : List PSeg) : List Shape :
     -- Drop a redundant "l" on a path closed with "h"
     let shape := if redundantL shape0 pts0 then shape0.take (shape0.length - 2) ++ ['h'] else shape0
     let pts := if redundantL shape0 pts0 then pts0.dropLast else pts0
-    if shape = ['m', 'l', 'h'] ∨ shape = ['m', 'l'] then
-      match pts with
-      | p0 :: p1 :: _ => [mkLine a p0 p1 tpath]
-      | _ => []                                   -- unreachable: two letters, two points
-    else if shape = ['m', 'l', 'l', 'l', 'h'] ∨ shape = ['m', 'l', 'l', 'l', 'l'] then
-      match pts with
-      | [p0, p1, p2, p3, p4] =>
-        if p0 = p4 ∧ squareCoords p0 p1 p2 p3 = true then [mkRect a (p0.1, p0.2, p2.1, p2.2) tpath]
-        else [mkCurve a pts tpath]
-      | _ => []                                   -- unreachable: five letters, five points
-    else [mkCurve a pts tpath]
+    classifyShape a shape pts tpath
 
 /-- `PDFLayoutAnalyzer.paint_path`. -/
 def paintPath (ctm : Matrix) (a : PaintArgs) (path : List PSeg) : List Shape :=
